@@ -10,12 +10,13 @@ Definition kc (x : job) : nat * nat := (jkey x, jctx x).
 (** what the invariant reads of a job *)
 Definition kv (x : job) : nat * nat * bool * bool * nat := (jkey x, jctx x, jnocse x, jprov x, jsubmits x).
 
-Record K (s : state) : Prop := {
+(** [b]: whether the same-execution look-up is exact (ctx_exact); coverage and uniqueness need it *)
+Record K (b : bool) (s : state) : Prop := {
   k_stat : forall j x, getj s j = Some x -> jnocse x = false -> jprov x = true;
   k_pend : forall k j, In (k, j) (pending s) -> exists x, getj s j = Some x /\ kc x = k /\ 1 <= jsubmits x /\ jnocse x = false;
-  k_cov : forall j x, getj s j = Some x -> jnocse x = false -> 1 <= jsubmits x ->
+  k_cov : b = true -> forall j x, getj s j = Some x -> jnocse x = false -> 1 <= jsubmits x ->
           In (kc x, j) (pending s) \/ exists o, In (kc x, o) (recorded s);
-  k_uniq : forall j1 j2 x1 x2, getj s j1 = Some x1 -> getj s j2 = Some x2 ->
+  k_uniq : b = true -> forall j1 j2 x1 x2, getj s j1 = Some x1 -> getj s j2 = Some x2 ->
            jnocse x1 = false -> jnocse x2 = false -> 1 <= jsubmits x1 -> 1 <= jsubmits x2 ->
            kc x1 = kc x2 -> j1 = j2
 }.
@@ -55,7 +56,7 @@ Lemma kv_fields x y : kv x = kv y ->
   jkey x = jkey y /\ jctx x = jctx y /\ jnocse x = jnocse y /\ jprov x = jprov y /\ jsubmits x = jsubmits y.
 Proof. unfold kv. intros [= A B C D E]. auto. Qed.
 
-Lemma K_kframe s s' : kframe s s' -> K s -> K s'.
+Lemma K_kframe b s s' : kframe s s' -> K b s -> K b s'.
 Proof.
   intros F Ks. pose proof (kframe_sym _ _ F) as F'. destruct F as (A & B & C). destruct Ks as [a1 a2 a3 a4].
   constructor.
@@ -64,15 +65,15 @@ Proof.
   - intros k j Hin. rewrite B in Hin. destruct (a2 k j Hin) as (x & Hx & Hk & Hs & Hn).
     destruct (kframe_get _ _ _ _ F' Hx) as (x' & Hx' & E). apply kv_fields in E.
     destruct E as (E1 & E2 & E3 & E4 & E5). exists x'. unfold kc in *. repeat split; auto; congruence.
-  - intros j x' Hx' Hn Hs. destruct (kframe_get _ _ _ _ (conj A (conj B C)) Hx') as (x & Hx & E).
+  - intros Hb j x' Hx' Hn Hs. destruct (kframe_get _ _ _ _ (conj A (conj B C)) Hx') as (x & Hx & E).
     apply kv_fields in E. destruct E as (E1 & E2 & E3 & E4 & E5). rewrite B, C.
-    assert (Ek : kc x' = kc x) by (unfold kc; congruence). rewrite Ek. apply (a3 j x Hx); congruence.
-  - intros j1 j2 y1 y2 H1 H2 N1 N2 S1 S2 Ek.
+    assert (Ek : kc x' = kc x) by (unfold kc; congruence). rewrite Ek. apply (a3 Hb j x Hx); congruence.
+  - intros Hb j1 j2 y1 y2 H1 H2 N1 N2 S1 S2 Ek.
     destruct (kframe_get _ _ _ _ (conj A (conj B C)) H1) as (x1 & Hx1 & E1).
     destruct (kframe_get _ _ _ _ (conj A (conj B C)) H2) as (x2 & Hx2 & E2).
     apply kv_fields in E1. apply kv_fields in E2.
     destruct E1 as (P1 & P2 & P3 & P4 & P5). destruct E2 as (Q1 & Q2 & Q3 & Q4 & Q5).
-    apply (a4 j1 j2 x1 x2 Hx1 Hx2); try congruence. unfold kc in *. congruence.
+    apply (a4 Hb j1 j2 x1 x2 Hx1 Hx2); try congruence. unfold kc in *. congruence.
 Qed.
 
 Lemma map_set_nth_same {A B} (f : A -> B) l n x y :
